@@ -52,6 +52,7 @@ inductive Op where
   | simplify
   | downsize
   | branch
+  | pickle          -- s = pickle.loads(pickle.dumps(s)), in place
 
 inductive Out where
   | unit
@@ -72,6 +73,24 @@ structure World where
   tick : Nat := 0
   qlog : List (Query × Answer) := []
   deriving Inhabited
+
+/-- `__getstate__` / `__setstate__` of one layer: which fields survive a pickle round trip, which are re-initialised
+(the plan is regenerated from the source as `Claripy.Gen.SolverPickle.plan`; C18 ties the two) -/
+def pickleLayer : LayerName → Frontend → Frontend → Frontend
+  | .ConstrainedFrontend, old, new =>
+      { new with constraints := old.constraints, variables := old.variables, finalized := old.finalized,
+                 woAnnot := old.constraints.foldl (fun acc c => listInsert acc c.id) [] }
+  | .FullFrontend, old, new => { new with track := old.track, solver := none, toAdd := [] }
+  | .ConstraintDeduplicatorMixin, old, new => { new with hashes := old.hashes }
+  | .SimplifySkipperMixin, old, new => { new with simplified := old.simplified }
+  | .SatCacheMixin, old, new => { new with cachedSat := old.cachedSat, cachedCore := old.cachedCore }
+  | .ModelCacheMixin, _, new =>
+      { new with models := [], evalExh := [], maxExh := [], minExh := [], maxSExh := [], minSExh := [] }
+  | _, _, new => new
+
+/-- unpickling a pickled frontend of a class with the given MRO -/
+def pickleRestore (mro : List LayerName) (fe : Frontend) : Frontend :=
+  mro.foldl (fun new L => pickleLayer L fe new) {}
 
 def World.init (track reuse : Bool) : World := { fes := [{ track := track }], reuse := reuse }
 
@@ -101,6 +120,8 @@ def step (E : Env) (cls : SolverClass) (w : World) (i : Nat) (op : Op) : Out × 
   | .unsatCore extra => outOf (fun core => .cons (core.map (·.id))) (runOn w i (o.unsatCore extra))
   | .simplify => outOf (fun cs => .cons (cs.map (·.id))) (runOn w i o.simplify)
   | .downsize => outOf (fun _ => .unit) (runOn w i o.downsize)
+  | .pickle =>
+    (.unit, { w with fes := w.fes.set i (pickleRestore (mro cls) (w.fes.getD i {})) })
   | .branch =>
     -- Frontend.branch: c = self.blank_copy(); self._copy(c)
     match runOn w i (do let fe ← M.getFe; o.copy (o.blankCopy fe {})) with
